@@ -33,6 +33,7 @@ func ObserveStr(label string, v string)    {}
 func NowNs() int64                         { return 0 }
 func At(t int64, f func())                 {}
 func FreezeClock()                         {}
+func FreezeTimers()                        {}
 func SleptNs() int64                       { return 0 }
 func TimeOf(ns int64) time.Time            { return time.Time{} }
 func ReplayMain(fns map[string]func())     {}
